@@ -10,6 +10,7 @@ import PorepyVerif.C46.Lemmas
 
 namespace PorepyVerif.C41
 open PorepyVerif.C46 (Coord Store)
+open PorepyVerif
 
 /-! ### sums -/
 
@@ -210,12 +211,6 @@ def gridPt : List Axis → List Int → List Rat
   | a :: as, i :: is => a.pt i :: gridPt as is
   | _, _ => []
 
-/-- `v` is a multi-index of the grid -/
-def inGrid : List Axis → List Int → Prop
-  | a :: as, i :: is => 0 ≤ i ∧ i < (a.npt : Int) ∧ inGrid as is
-  | [], [] => True
-  | _, _ => False
-
 /-- Fortran-order position of a multi-index -/
 def ravel : List Axis → List Int → Int
   | a :: as, i :: is => i + (a.npt : Int) * ravel as is
@@ -284,5 +279,1250 @@ theorem coords_get : ∀ (axes : List Axis) (v : List Int), inGrid axes v →
       simp only [coords]
       rw [flatMap_block _ a.npt (fun ys => by simp) _ n m hn, hget]
       simp [hn, gridPt]
+
+/-! ### exactness of the tensor-product sums on multilinear functions -/
+
+theorem pt_succ (a : Axis) (b : Int) : a.pt (b + 1) = a.pt b + a.h := by
+  unfold Axis.pt; push_cast; ring
+
+theorem weight_mul_h (a : Axis) (x : Rat) (b : Int) (hh : a.h ≠ 0) :
+    a.rightWeight x b * a.h = x - a.pt b := by
+  unfold Axis.rightWeight; field_simp
+
+/-- Interpolation in ANY cell of the (infinite) grid reproduces a multilinear function. -/
+theorem wsum_exact (t : ML) : ∀ (axes : List Axis) (xs : List Rat) (bs : List Int),
+    axes.length = xs.length → xs.length = bs.length → (∀ a ∈ axes, a.h ≠ 0) →
+    wsum ((rightWeights axes xs bs).zip bs) (fun v => t.eval (gridPt axes v)) = t.eval xs := by
+  induction t with
+  | const c => intro axes xs bs _ _ _; simp only [ML.eval]; exact wsum_const _ c
+  | node a b iha ihb =>
+    intro axes xs bs h1 h2 hh
+    match axes, xs, bs, h1, h2 with
+    | [], [], [], _, _ => simp [rightWeights, wsum, gridPt]
+    | ax :: axes, x :: xs, b0 :: bs, h1, h2 =>
+      have h1' : axes.length = xs.length := by simpa using h1
+      have h2' : xs.length = bs.length := by simpa using h2
+      have hh' : ∀ a ∈ axes, a.h ≠ 0 := fun a ha => hh a (List.mem_cons_of_mem _ ha)
+      have hw := weight_mul_h ax x b0 (hh ax List.mem_cons_self)
+      simp only [rightWeights, List.zip_cons_cons, wsum, gridPt, ML.eval]
+      rw [wsum_lin, wsum_lin, iha axes xs bs h1' h2' hh', ihb axes xs bs h1' h2' hh', pt_succ]
+      generalize ax.rightWeight x b0 = w at hw
+      have : x = ax.pt b0 + w * ax.h := by rw [hw]; ring
+      rw [this]; ring
+
+/-- The difference quotient along axis `k` in ANY cell is the partial derivative of a multilinear
+    function (times the mesh size). -/
+theorem gsum_exact (t : ML) : ∀ (k : Nat) (axes : List Axis) (xs : List Rat) (bs : List Int),
+    axes.length = xs.length → xs.length = bs.length → (∀ a ∈ axes, a.h ≠ 0) →
+    gsum k ((rightWeights axes xs bs).zip bs) (fun v => t.eval (gridPt axes v)) =
+      (match axes[k]? with | some ax => ax.h | none => 0) * t.deriv k xs := by
+  induction t with
+  | const c =>
+    intro k axes xs bs _ _ _
+    simp only [ML.eval, ML.deriv, gsum_const]; ring
+  | node a b iha ihb =>
+    intro k axes xs bs h1 h2 hh
+    match axes, xs, bs, h1, h2 with
+    | [], [], [], _, _ => cases k <;> simp [rightWeights, gsum, ML.deriv]
+    | ax :: axes, x :: xs, b0 :: bs, h1, h2 =>
+      have h1' : axes.length = xs.length := by simpa using h1
+      have h2' : xs.length = bs.length := by simpa using h2
+      have hh' : ∀ a ∈ axes, a.h ≠ 0 := fun a ha => hh a (List.mem_cons_of_mem _ ha)
+      cases k with
+      | zero =>
+        simp only [rightWeights, List.zip_cons_cons, gsum, gridPt, ML.eval, ML.deriv,
+          List.getElem?_cons_zero]
+        rw [wsum_lin, wsum_lin, wsum_exact a axes xs bs h1' h2' hh',
+          wsum_exact b axes xs bs h1' h2' hh', pt_succ]
+        ring
+      | succ k =>
+        have hw := weight_mul_h ax x b0 (hh ax List.mem_cons_self)
+        simp only [rightWeights, List.zip_cons_cons, gsum, gridPt, ML.eval, ML.deriv,
+          List.getElem?_cons_succ]
+        rw [gsum_lin, gsum_lin, iha k axes xs bs h1' h2' hh', ihb k axes xs bs h1' h2' hh', pt_succ]
+        generalize ax.rightWeight x b0 = w at hw
+        have : x = ax.pt b0 + w * ax.h := by rw [hw]; ring
+        rw [this]; ring
+
+/-! ### one axis: the base vertex and the weights are in range -/
+
+theorem h_pos (a : Axis) (hn : 2 ≤ a.npt) (hlh : a.low < a.high) : 0 < a.h := by
+  unfold Axis.h
+  have : (2 : Rat) ≤ (a.npt : Rat) := by exact_mod_cast hn
+  apply div_pos <;> linarith
+
+theorem axis_range (a : Axis) (x : Rat) (hn : 2 ≤ a.npt) (hlh : a.low < a.high)
+    (hx : a.low ≤ x) (hx2 : x ≤ a.high) :
+    0 ≤ a.base x ∧ a.base x ≤ (a.npt : Int) - 2 ∧
+      0 ≤ a.rightWeight x (a.base x) ∧ a.rightWeight x (a.base x) ≤ 1 := by
+  have hh := h_pos a hn hlh
+  have hq0 : 0 ≤ (x - a.low) / a.h := div_nonneg (by linarith) hh.le
+  have hf0 : 0 ≤ ((x - a.low) / a.h).floor := Rat.le_floor_iff.mpr (by simpa using hq0)
+  have hmax : max ((a.npt : Int) - 2) 0 = (a.npt : Int) - 2 := by omega
+  have hfl := Rat.floor_le ((x - a.low) / a.h)
+  have hfl2 := Rat.lt_floor_add_one ((x - a.low) / a.h)
+  have hw : a.rightWeight x (a.base x) = (x - a.low) / a.h - (a.base x : Rat) := by
+    unfold Axis.rightWeight Axis.pt
+    field_simp
+    ring
+  have hqn : (x - a.low) / a.h ≤ (a.npt : Rat) - 1 := by
+    rw [div_le_iff₀ hh]
+    have : ((a.npt : Rat) - 1) * a.h = a.high - a.low := by
+      unfold Axis.h
+      have h2 : (2 : Rat) ≤ (a.npt : Rat) := by exact_mod_cast hn
+      have hne : (a.npt : Rat) - 1 ≠ 0 := by intro h; linarith
+      field_simp
+    linarith
+  refine ⟨?_, ?_, ?_, ?_⟩
+  · unfold Axis.base; rw [hmax]; omega
+  · unfold Axis.base; rw [hmax]; omega
+  · rw [hw]
+    have : a.base x ≤ ((x - a.low) / a.h).floor := by unfold Axis.base; omega
+    have : (a.base x : Rat) ≤ (((x - a.low) / a.h).floor : Rat) := by exact_mod_cast this
+    linarith
+  · rw [hw]
+    unfold Axis.base; rw [hmax]
+    rcases le_total ((x - a.low) / a.h).floor ((a.npt : Int) - 2) with h | h
+    · rw [min_eq_left h]
+      push_cast at hfl2
+      linarith
+    · rw [min_eq_right h]
+      push_cast
+      linarith
+
+/-! ### the standard table, row by row and point by point -/
+
+theorem mapM_ok {α β : Type} (f : α → Except Err β) (g : α → β) :
+    ∀ (l : List α), (∀ a ∈ l, f a = .ok (g a)) → l.mapM f = .ok (l.map g)
+  | [], _ => rfl
+  | a :: l, h => by
+    rw [List.mapM_cons, h a List.mem_cons_self,
+      mapM_ok f g l (fun b hb => h b (List.mem_cons_of_mem _ hb))]
+    rfl
+
+theorem mem_incrs_inCube : ∀ (bs : List Int) (ws : List Rat), ws.length = bs.length →
+    ∀ incr ∈ incrs bs.length, InCube (ws.zip bs) (addIncr bs incr)
+  | [], ws, h, incr, hi => by
+    cases ws with
+    | nil => simp [incrs] at hi; subst hi; exact .nil
+    | cons _ _ => simp at h
+  | b :: bs, [], h, _, _ => by simp at h
+  | b :: bs, w :: ws, h, incr, hi => by
+    have hl : ws.length = bs.length := by simpa using h
+    simp only [List.length_cons, incrs, List.mem_append, List.mem_map] at hi
+    rcases hi with ⟨is, his, rfl⟩ | ⟨is, his, rfl⟩
+    · exact .cons (Or.inl (by simp)) (mem_incrs_inCube bs ws hl is his)
+    · exact .cons (Or.inr (by simp)) (mem_incrs_inCube bs ws hl is his)
+
+theorem inGrid_length : ∀ (axes : List Axis) (v : List Int), inGrid axes v → axes.length = v.length
+  | [], [], _ => rfl
+  | [], _ :: _, h => by simp [inGrid] at h
+  | _ :: _, [], h => by simp [inGrid] at h
+  | a :: as, i :: is, h => by simp [inGrid_length as is h.2.2]
+
+/-- value lookup of a grid vertex in a table row -/
+theorem row_lookup (axes : List Axis) (f : List Rat → Rat) (v : List Int) (hv : inGrid axes v) :
+    let k := dotI v (strides 1 (axes.map (·.npt)))
+    0 ≤ k ∧ k < (((coords axes).map f).length : Int) ∧ ((coords axes).map f).getD k.toNat 0 = f (gridPt axes v) := by
+  intro k
+  have hk : k = ravel axes v := by
+    show dotI v (strides 1 (axes.map (·.npt))) = _
+    rw [dot_strides axes v 1 (inGrid_length axes v hv)]; simp
+  obtain ⟨h0, h1, h2⟩ := coords_get axes v hv
+  rw [hk, List.length_map]
+  refine ⟨h0, h1, ?_⟩
+  rw [List.getD_eq_getElem?_getD, List.getElem?_map, h2]
+  rfl
+
+theorem interpRow_eq (axes : List Axis) (f : List Rat → Rat) (b : List Int) (rw : List Rat)
+    (hl : rw.length = b.length) (hc : ∀ v, InCube (rw.zip b) v → inGrid axes v) :
+    interpRow ((coords axes).map f) (strides 1 (axes.map (·.npt))) b rw =
+      .ok (wsum (rw.zip b) (fun v => f (gridPt axes v))) := by
+  unfold interpRow
+  simp only [List.any_map, List.map_map]
+  have hall : ∀ incr ∈ incrs b.length, inGrid axes (addIncr b incr) :=
+    fun incr hi => hc _ (mem_incrs_inCube b rw hl incr hi)
+  rw [if_neg]
+  · congr 1
+    rw [← enum_wsum b rw _ hl]
+    apply sumQ_map_congr
+    intro incr hi
+    obtain ⟨_, h1, h2⟩ := row_lookup axes f _ (hall incr hi)
+    simp only [Function.comp, linIndex_eq_dot]
+    rw [if_pos h1, h2]
+  · rw [List.any_eq_true]
+    rintro ⟨incr, hi, hbad⟩
+    obtain ⟨_, h1, _⟩ := row_lookup axes f _ (hall incr hi)
+    simp only [Function.comp, linIndex_eq_dot, Bool.and_eq_true, Bool.not_eq_true', decide_eq_false_iff_not] at hbad
+    exact hbad.1 h1
+
+theorem gradRow_eq (axes : List Axis) (f : List Rat → Rat) (b : List Int) (rw : List Rat) (k : Nat) (hk : Rat)
+    (hl : rw.length = b.length) (hkl : k < b.length) (hc : ∀ v, InCube (rw.zip b) v → inGrid axes v) :
+    gradRow ((coords axes).map f) (strides 1 (axes.map (·.npt))) b rw k hk =
+      .ok (gsum k (rw.zip b) (fun v => f (gridPt axes v)) / hk) := by
+  unfold gradRow
+  simp only [List.any_map, List.map_map]
+  have hall : ∀ incr ∈ incrs b.length, inGrid axes (addIncr b incr) :=
+    fun incr hi => hc _ (mem_incrs_inCube b rw hl incr hi)
+  rw [if_neg]
+  · congr 2
+    rw [← enum_gsum k b rw _ hl hkl]
+    apply sumQ_map_congr
+    intro incr hi
+    obtain ⟨_, _, h2⟩ := row_lookup axes f _ (hall incr hi)
+    simp only [Function.comp, linIndex_eq_dot]
+    rw [h2]
+  · rw [List.any_eq_true]
+    rintro ⟨incr, hi, hbad⟩
+    obtain ⟨h0, h1, _⟩ := row_lookup axes f _ (hall incr hi)
+    simp only [Function.comp, linIndex_eq_dot, Bool.not_eq_true', Bool.and_eq_false_iff, decide_eq_false_iff_not] at hbad
+    rcases hbad with h | h
+    · exact h h0
+    · exact h h1
+
+
+theorem inRange_iff (a : Axis) (x : Rat) : a.inRange x = true ↔ a.low ≤ x ∧ x ≤ a.high := by
+  unfold Axis.inRange
+  simp only [Bool.not_eq_true', Bool.or_eq_false_iff, decide_eq_false_iff_not, not_lt]
+
+theorem tol_pos : 0 < tol := by unfold tol; norm_num
+
+theorem point_facts : ∀ (axes : List Axis) (x : List Rat), WF axes → axes.length = x.length →
+    inBox axes x = true →
+    (bases axes x).length = x.length ∧ (rightWeights axes x (bases axes x)).length = x.length ∧
+    weightsOk (rightWeights axes x (bases axes x)) = true ∧
+    (∀ w ∈ rightWeights axes x (bases axes x), 0 ≤ w ∧ w ≤ 1) ∧
+    ∀ v, InCube ((rightWeights axes x (bases axes x)).zip (bases axes x)) v → inGrid axes v
+  | [], [], _, _, _ => by
+    refine ⟨rfl, rfl, rfl, by simp [rightWeights], ?_⟩
+    intro v hv
+    cases hv
+    trivial
+  | [], _ :: _, _, h, _ => by simp at h
+  | _ :: _, [], _, h, _ => by simp at h
+  | a :: as, x :: xs, hwf, hl, hbox => by
+    have hl' : as.length = xs.length := by simpa using hl
+    simp only [inBox, Bool.and_eq_true] at hbox
+    obtain ⟨hr, hbox'⟩ := hbox
+    rw [inRange_iff] at hr
+    obtain ⟨hn, hlh⟩ := hwf a List.mem_cons_self
+    obtain ⟨hb0, hb1, hw0, hw1⟩ := axis_range a x hn hlh hr.1 hr.2
+    obtain ⟨i1, i2, i3, i4, i5⟩ := point_facts as xs (fun b hb => hwf b (List.mem_cons_of_mem _ hb)) hl' hbox'
+    have ht := tol_pos
+    refine ⟨by simp [bases, i1], by simp [bases, rightWeights, i2], ?_, ?_, ?_⟩
+    · simp only [bases, rightWeights, weightsOk, List.all_cons, Bool.and_eq_true, decide_eq_true_eq]
+      refine ⟨⟨by linarith, by linarith⟩, i3⟩
+    · intro w hw
+      simp only [bases, rightWeights, List.mem_cons] at hw
+      rcases hw with rfl | hw
+      · exact ⟨hw0, hw1⟩
+      · exact i4 w hw
+    · intro v hv
+      simp only [bases, rightWeights, List.zip_cons_cons] at hv
+      cases hv with
+      | cons hi hrest =>
+        refine ⟨?_, ?_, i5 _ hrest⟩
+        · rcases hi with rfl | rfl <;> simp only <;> omega
+        · rcases hi with rfl | rfl <;> simp only <;> omega
+
+
+theorem mapM_map_ok {α β γ : Type} (h : α → β) (f : β → Except Err γ) (g : α → γ) :
+    ∀ (l : List α), (∀ a ∈ l, f (h a) = .ok (g a)) → (l.map h).mapM f = .ok (l.map g)
+  | [], _ => rfl
+  | a :: l, hh => by
+    rw [List.map_cons, List.mapM_cons, hh a List.mem_cons_self,
+      mapM_map_ok h f g l (fun b hb => hh b (List.mem_cons_of_mem _ hb))]
+    rfl
+
+theorem WF.h_ne {axes : List Axis} (hwf : WF axes) : ∀ a ∈ axes, a.h ≠ 0 :=
+  fun a ha => (h_pos a (hwf a ha).1 (hwf a ha).2).ne'
+
+/-- the two guards of `interpolate` / `gradient` pass for points of the closed box -/
+theorem guards_pass (axes : List Axis) (xs : List (List Rat)) (hwf : WF axes)
+    (hx : ∀ x ∈ xs, x.length = axes.length ∧ inBox axes x = true) :
+    xs.all (inBox axes) = true ∧
+    (xs.map (fun x => (bases axes x, rightWeights axes x (bases axes x)))).all (fun p => weightsOk p.2) = true := by
+  constructor
+  · exact List.all_eq_true.mpr (fun x hx' => (hx x hx').2)
+  · rw [List.all_map, List.all_eq_true]
+    intro x hx'
+    exact (point_facts axes x hwf (hx x hx').1.symm (hx x hx').2).2.2.1
+
+theorem std_interp_point (axes : List Axis) (t : ML) (x : List Rat) (hwf : WF axes)
+    (hl : x.length = axes.length) (hb : inBox axes x = true) :
+    interpRow ((coords axes).map t.eval) (strides 1 (axes.map (·.npt))) (bases axes x)
+      (rightWeights axes x (bases axes x)) = .ok (t.eval x) := by
+  obtain ⟨i1, i2, _, _, i5⟩ := point_facts axes x hwf hl.symm hb
+  rw [interpRow_eq axes t.eval _ _ (by rw [i1, i2]) i5,
+    wsum_exact t axes x _ hl.symm i1.symm hwf.h_ne]
+
+theorem std_grad_point (axes : List Axis) (t : ML) (x : List Rat) (k : Nat) (ax : Axis) (hwf : WF axes)
+    (hk : axes[k]? = some ax) (hl : x.length = axes.length) (hb : inBox axes x = true) :
+    gradRow ((coords axes).map t.eval) (strides 1 (axes.map (·.npt))) (bases axes x)
+      (rightWeights axes x (bases axes x)) k ax.h = .ok (t.deriv k x) := by
+  obtain ⟨i1, i2, _, _, i5⟩ := point_facts axes x hwf hl.symm hb
+  have hkl : k < axes.length := by
+    rcases Nat.lt_or_ge k axes.length with h | h
+    · exact h
+    · rw [List.getElem?_eq_none h] at hk; cases hk
+  rw [gradRow_eq axes t.eval _ _ k ax.h (by rw [i1, i2]) (by rw [i1, hl]; exact hkl) i5,
+    gsum_exact t k axes x _ hl.symm i1.symm hwf.h_ne, hk]
+  have : ax.h ≠ 0 := hwf.h_ne ax (List.mem_of_getElem? hk)
+  simp only
+  congr 1
+  field_simp
+
+/-! ### storage-order facts about the C46 sparse array -/
+
+theorem get1_map (F : Coord → Rat) : ∀ (K : List Coord) (c : Coord),
+    C46.get1 (K.map (fun i => (i, F i))) c = if c ∈ K then some (F c) else none
+  | [], c => by simp [C46.get1]
+  | k :: K, c => by
+    simp only [List.map_cons, C46.get1, List.mem_cons]
+    by_cases h : k = c
+    · subst h; simp
+    · have : ¬ c = k := fun e => h e.symm
+      simp only [h, if_false, this, false_or]
+      exact get1_map F K c
+
+theorem upsert_fresh (a : Bool) : ∀ (s : Store) (u : Coord) (v : Rat), u ∉ s.map (·.1) →
+    C46.upsert a s u v = s ++ [(u, v)]
+  | [], u, v, _ => rfl
+  | p :: s, u, v, h => by
+    simp only [List.map_cons, List.mem_cons, not_or] at h
+    have hp : ¬ p.1 = u := fun e => h.1 e.symm
+    simp only [C46.upsert, if_neg hp, List.cons_append]
+    rw [upsert_fresh a s u v h.2]
+
+theorem foldl_upsert_fresh (a : Bool) (g : Coord → Rat) : ∀ (us : List Coord) (s : Store), us.Nodup →
+    (∀ u ∈ us, u ∉ s.map (·.1)) →
+    us.foldl (fun acc u => C46.upsert a acc u (g u)) s = s ++ us.map (fun u => (u, g u))
+  | [], s, _, _ => by simp
+  | u :: us, s, hn, hf => by
+    rw [List.nodup_cons] at hn
+    rw [List.foldl_cons, upsert_fresh a s u (g u) (hf u List.mem_cons_self),
+      foldl_upsert_fresh a g us _ hn.2]
+    · simp
+    · intro u' hu'
+      simp only [List.map_append, List.map_cons, List.map_nil, List.mem_append, List.mem_singleton, not_or]
+      exact ⟨hf u' (List.mem_cons_of_mem _ hu'), fun e => hn.1 (e ▸ hu')⟩
+
+theorem vals_map_fresh (F : Coord → Rat) (u : Coord) : ∀ (ks : List Coord), u ∉ ks →
+    C46.vals u (ks.map (fun k => (k, F k))) = []
+  | [], _ => rfl
+  | k :: ks, h => by
+    simp only [List.mem_cons, not_or] at h
+    have : ¬ k = u := fun e => h.1 e.symm
+    rw [List.map_cons, C46.vals_cons]
+    simp only [this, if_false]
+    exact vals_map_fresh F u ks h.2
+
+theorem combine_map (F : Coord → Rat) : ∀ (ks : List Coord), ks.Nodup → ∀ u ∈ ks,
+    C46.combine false (ks.map (fun k => (k, F k))) u = F u
+  | [], _, u, hu => by simp at hu
+  | k :: ks, hn, u, hu => by
+    rw [List.nodup_cons] at hn
+    unfold C46.combine
+    simp only [Bool.false_eq_true, if_false]
+    rw [List.map_cons, C46.vals_cons]
+    by_cases h : k = u
+    · subst h
+      simp only [if_true]
+      rw [vals_map_fresh F k ks hn.1]
+      rfl
+    · simp only [h, if_false]
+      have hu' : u ∈ ks := by
+        rcases List.mem_cons.mp hu with e | e
+        · exact absurd e.symm h
+        · exact e
+      have := combine_map F ks hn.2 u hu'
+      unfold C46.combine at this
+      simpa using this
+
+/-! lexicographic order -/
+
+theorem lexLe_total : ∀ (a b : Coord), C46.lexLe a b = true ∨ C46.lexLe b a = true
+  | [], _ => Or.inl rfl
+  | _ :: _, [] => Or.inr rfl
+  | a :: as, b :: bs => by
+    simp only [C46.lexLe]
+    rcases Int.lt_trichotomy a b with h | h | h
+    · left; simp [h]
+    · subst h; simp only [Int.lt_irrefl, if_false]; exact lexLe_total as bs
+    · right; simp [h]
+
+theorem lexLe_trans : ∀ (a b c : Coord), C46.lexLe a b = true → C46.lexLe b c = true → C46.lexLe a c = true
+  | [], _, _, _, _ => rfl
+  | _ :: _, [], _, h, _ => by simp [C46.lexLe] at h
+  | _ :: _, _ :: _, [], _, h => by simp [C46.lexLe] at h
+  | a :: as, b :: bs, c :: cs, h1, h2 => by
+    simp only [C46.lexLe] at h1 h2 ⊢
+    by_cases hab : a < b
+    · by_cases hbc : b < c
+      · have : a < c := by omega
+        simp [this]
+      · by_cases hcb : c < b
+        · simp [hbc, hcb] at h2
+        · have : a < c := by omega
+          simp [this]
+    · by_cases hba : b < a
+      · simp [hab, hba] at h1
+      · have hab' : a = b := by omega
+        subst hab'
+        simp only [Int.lt_irrefl, if_false] at h1
+        by_cases hbc : a < c
+        · simp [hbc]
+        · by_cases hcb : c < a
+          · simp [hbc, hcb] at h2
+          · simp only [hbc, hcb, if_false] at h2 ⊢
+            exact lexLe_trans as bs cs h1 h2
+
+abbrev SortedL (l : List Coord) : Prop := l.Pairwise (fun a b => C46.lexLe a b = true)
+
+theorem sorted_insertSorted (c : Coord) : ∀ (l : List Coord), SortedL l → SortedL (C46.insertSorted c l)
+  | [], _ => by simp [C46.insertSorted, SortedL]
+  | a :: l, h => by
+    have h' := List.pairwise_cons.mp h
+    unfold C46.insertSorted
+    by_cases hca : C46.lexLe c a = true
+    · rw [if_pos hca]
+      refine List.pairwise_cons.mpr ⟨?_, h⟩
+      intro b hb
+      rcases List.mem_cons.mp hb with rfl | hb
+      · exact hca
+      · exact lexLe_trans c a b hca (h'.1 b hb)
+    · rw [if_neg hca]
+      have hac : C46.lexLe a c = true := (lexLe_total a c).resolve_right hca
+      refine List.pairwise_cons.mpr ⟨?_, sorted_insertSorted c l h'.2⟩
+      intro b hb
+      rcases (C46.mem_insertSorted b c l).mp hb with rfl | hb
+      · exact hac
+      · exact h'.1 b hb
+
+theorem sorted_isort : ∀ (l : List Coord), SortedL (C46.isort l)
+  | [] => by simp [C46.isort, SortedL]
+  | c :: l => sorted_insertSorted c _ (sorted_isort l)
+
+theorem dedup_sublist : ∀ (l : List Coord), (C46.dedup l).Sublist l
+  | [] => by simp [C46.dedup]
+  | c :: l => by
+    unfold C46.dedup
+    split
+    · exact (dedup_sublist l).cons c
+    · exact (dedup_sublist l).cons_cons c
+
+theorem sorted_uniqueCoords (l : List Coord) : SortedL (C46.uniqueCoords l) :=
+  (sorted_isort l).sublist (dedup_sublist _)
+
+theorem isort_of_sorted : ∀ (l : List Coord), SortedL l → C46.isort l = l
+  | [], _ => rfl
+  | c :: l, h => by
+    have h' := List.pairwise_cons.mp h
+    rw [C46.isort, isort_of_sorted l h'.2]
+    cases l with
+    | nil => rfl
+    | cons a l => simp [C46.insertSorted, h'.1 a List.mem_cons_self]
+
+theorem dedup_of_nodup : ∀ (l : List Coord), l.Nodup → C46.dedup l = l
+  | [], _ => rfl
+  | c :: l, h => by
+    rw [List.nodup_cons] at h
+    rw [C46.dedup, if_neg h.1, dedup_of_nodup l h.2]
+
+/-- a filtered output of `np.unique` is left unchanged by `np.unique` -/
+theorem uniqueCoords_filter (p : Coord → Bool) (l : List Coord) :
+    C46.uniqueCoords ((C46.uniqueCoords l).filter p) = (C46.uniqueCoords l).filter p := by
+  have hs : SortedL ((C46.uniqueCoords l).filter p) := (sorted_uniqueCoords l).sublist List.filter_sublist
+  have hn : ((C46.uniqueCoords l).filter p).Nodup := (C46.nodup_uniqueCoords l).sublist List.filter_sublist
+  show C46.dedup (C46.isort _) = _
+  rw [isort_of_sorted _ hs, dedup_of_nodup _ hn]
+
+/-- `SparseNdArray.add` of sorted, distinct, new coordinates appends them in that order -/
+theorem add_fresh (s : Store) (ks : List Coord) (F : Coord → Rat) (hu : C46.uniqueCoords ks = ks)
+    (hfresh : ∀ k ∈ ks, k ∉ s.map (·.1)) :
+    (C46.add s (ks.map (fun k => (k, F k))) false).1 = s ++ ks.map (fun k => (k, F k)) := by
+  have hn : ks.Nodup := hu ▸ C46.nodup_uniqueCoords ks
+  unfold C46.add
+  simp only [List.map_map]
+  have hk : (ks.map ((fun p : Coord × Rat => p.1) ∘ fun k => (k, F k))) = ks := by
+    have : ((fun p : Coord × Rat => p.1) ∘ fun k => (k, F k)) = id := rfl
+    rw [this, List.map_id]
+  rw [hk, hu, foldl_upsert_fresh false _ ks s hn hfresh]
+  congr 1
+  apply List.map_congr_left
+  intro u hu'
+  rw [combine_map F ks hn u hu']
+
+/-! ### geometry of the adaptive table -/
+
+theorem floorIdx_length : ∀ (bp h x : List Rat), bp.length = h.length → x.length = h.length →
+    (floorIdx bp h x).length = h.length
+  | [], [], [], _, _ => rfl
+  | _ :: _, [], _, h, _ => by simp at h
+  | [], _ :: _, _, h, _ => by simp at h
+  | _, _ :: _, [], _, h => by simp at h
+  | [], [], _ :: _, _, h => by simp at h
+  | b :: bp, h :: hs, x :: xs, h1, h2 => by
+    simp [floorIdx, floorIdx_length bp hs xs (by simpa using h1) (by simpa using h2)]
+
+theorem danger_length : ∀ (bp h x : List Rat), bp.length = h.length → x.length = h.length →
+    (danger bp h x).length = h.length
+  | [], [], [], _, _ => rfl
+  | _ :: _, [], _, h, _ => by simp at h
+  | [], _ :: _, _, h, _ => by simp at h
+  | _, _ :: _, [], _, h => by simp at h
+  | [], [], _ :: _, _, h => by simp at h
+  | b :: bp, h :: hs, x :: xs, h1, h2 => by
+    simp [danger, danger_length bp hs xs (by simpa using h1) (by simpa using h2)]
+
+theorem coordOf_inj : ∀ (bp h : List Rat) (i j : Coord), bp.length = h.length → i.length = h.length →
+    j.length = h.length → (∀ hk ∈ h, hk ≠ 0) → coordOf bp h i = coordOf bp h j → i = j
+  | [], [], [], [], _, _, _, _, _ => rfl
+  | _ :: _, [], _, _, h, _, _, _, _ => by simp at h
+  | [], _ :: _, _, _, h, _, _, _, _ => by simp at h
+  | _, _ :: _, [], _, _, h, _, _, _ => by simp at h
+  | _, _ :: _, _, [], _, _, h, _, _ => by simp at h
+  | [], [], _ :: _, _, _, h, _, _, _ => by simp at h
+  | [], [], [], _ :: _, _, _, h, _, _ => by simp at h
+  | b :: bp, h :: hs, i :: is, j :: js, h1, h2, h3, hne, he => by
+    simp only [coordOf, List.cons.injEq] at he
+    have hh : h ≠ 0 := hne h List.mem_cons_self
+    have hij : (i : Rat) = (j : Rat) := by
+      have : h * (i : Rat) = h * (j : Rat) := by linarith [he.1]
+      exact mul_left_cancel₀ hh this
+    have := coordOf_inj bp hs is js (by simpa using h1) (by simpa using h2) (by simpa using h3)
+      (fun hk hm => hne hk (List.mem_cons_of_mem _ hm)) he.2
+    rw [this, Int.cast_inj.mp hij]
+
+theorem addIncr_length (b incr : Coord) (h : b.length = incr.length) : (addIncr b incr).length = b.length := by
+  simp [addIncr, h]
+
+theorem addIncr_zeros : ∀ (b : Coord), addIncr b (List.replicate b.length 0) = b
+  | [] => rfl
+  | x :: b => by
+    simp only [addIncr, List.length_cons, List.replicate_succ, List.zipWith_cons_cons, Int.add_zero]
+    exact congrArg (x :: ·) (addIncr_zeros b)
+
+theorem zeros_mem_incrs : ∀ (d : Nat), List.replicate d (0 : Int) ∈ incrs d
+  | 0 => by simp [incrs]
+  | d + 1 => by
+    simp only [incrs, List.replicate_succ, List.mem_append, List.mem_map]
+    exact Or.inl ⟨_, zeros_mem_incrs d, rfl⟩
+
+theorem incrs_length : ∀ (d : Nat) (incr : List Int), incr ∈ incrs d → incr.length = d
+  | 0, incr, h => by simp [incrs] at h; simp [h]
+  | d + 1, incr, h => by
+    simp only [incrs, List.mem_append, List.mem_map] at h
+    rcases h with ⟨is, his, rfl⟩ | ⟨is, his, rfl⟩ <;> simp [incrs_length d is his]
+
+theorem zeros_mem_bumps : ∀ (dg : List Bool), List.replicate dg.length (0 : Int) ∈ bumps dg
+  | [] => by simp [bumps]
+  | d :: dg => by
+    simp only [bumps, List.length_cons, List.replicate_succ]
+    split
+    · exact List.mem_append_left _ (List.mem_map.mpr ⟨_, zeros_mem_bumps dg, rfl⟩)
+    · exact List.mem_map.mpr ⟨_, zeros_mem_bumps dg, rfl⟩
+
+theorem bumps_length : ∀ (dg : List Bool) (v : List Int), v ∈ bumps dg → v.length = dg.length
+  | [], v, h => by simp [bumps] at h; simp [h]
+  | d :: dg, v, h => by
+    simp only [bumps] at h
+    split at h
+    · simp only [List.mem_append, List.mem_map] at h
+      rcases h with ⟨is, his, rfl⟩ | ⟨is, his, rfl⟩ <;> simp [bumps_length dg is his]
+    · simp only [List.mem_map] at h
+      obtain ⟨is, his, rfl⟩ := h
+      simp [bumps_length dg is his]
+
+theorem safeBases_length (T : ATable) (hg : Geo T) (xs : List (List Rat))
+    (hx : ∀ x ∈ xs, x.length = T.h.length) : ∀ b ∈ safeBases T xs, b.length = T.h.length := by
+  intro b hb
+  unfold safeBases at hb
+  simp only at hb
+  split at hb
+  · simp only [List.mem_flatMap, List.mem_map] at hb
+    obtain ⟨p, hp, v, hv, rfl⟩ := hb
+    have hp' := List.of_mem_zip hp
+    simp only [List.mem_map] at hp'
+    obtain ⟨⟨x, hx1, e1⟩, ⟨x', hx2, e2⟩⟩ := hp'
+    have l1 : p.1.length = T.h.length := by rw [← e1]; exact floorIdx_length _ _ _ hg.hb (hx x hx1)
+    have l2 : p.2.length = T.h.length := by rw [← e2]; exact danger_length _ _ _ hg.hb (hx x' hx2)
+    rw [addIncr_length _ _ (by rw [l1, bumps_length _ _ hv, l2]), l1]
+  · simp only [List.mem_map] at hb
+    obtain ⟨x, hx1, rfl⟩ := hb
+    exact floorIdx_length _ _ _ hg.hb (hx x hx1)
+
+theorem floor_mem_safeBases (T : ATable) (hg : Geo T) (xs : List (List Rat))
+    (hx : ∀ x ∈ xs, x.length = T.h.length) : ∀ x ∈ xs, floorIdx T.basePt T.h x ∈ safeBases T xs := by
+  intro x hx1
+  unfold safeBases
+  simp only
+  split
+  · simp only [List.mem_flatMap, List.mem_map]
+    refine ⟨(floorIdx T.basePt T.h x, danger T.basePt T.h x), ?_, List.replicate (danger T.basePt T.h x).length 0,
+      zeros_mem_bumps _, ?_⟩
+    · rw [List.zip_map']
+      exact List.mem_map.mpr ⟨x, hx1, rfl⟩
+    · have : (danger T.basePt T.h x).length = (floorIdx T.basePt T.h x).length := by
+        rw [danger_length _ _ _ hg.hb (hx x hx1), floorIdx_length _ _ _ hg.hb (hx x hx1)]
+      rw [this]; exact addIncr_zeros _
+  · exact List.mem_map.mpr ⟨x, hx1, rfl⟩
+
+theorem mem_needed (T : ATable) (xs : List (List Rat)) (i : Coord) :
+    i ∈ needed T xs ↔ ∃ b ∈ safeBases T xs, ∃ incr ∈ incrs T.h.length, i = addIncr b incr := by
+  unfold needed
+  rw [C46.mem_uniqueCoords]
+  simp only [List.mem_flatMap, hyper, List.mem_map]
+  constructor
+  · rintro ⟨b, hb, incr, hi, rfl⟩; exact ⟨b, hb, incr, hi, rfl⟩
+  · rintro ⟨b, hb, incr, hi, rfl⟩; exact ⟨b, hb, incr, hi, rfl⟩
+
+theorem needed_length (T : ATable) (hg : Geo T) (xs : List (List Rat))
+    (hx : ∀ x ∈ xs, x.length = T.h.length) : ∀ i ∈ needed T xs, i.length = T.h.length := by
+  intro i hi
+  obtain ⟨b, hb, incr, hinc, rfl⟩ := (mem_needed T xs i).mp hi
+  have l1 := safeBases_length T hg xs hx b hb
+  rw [addIncr_length _ _ (by rw [l1, incrs_length _ _ hinc]), l1]
+
+theorem cube_mem_needed (T : ATable) (hg : Geo T) (xs : List (List Rat))
+    (hx : ∀ x ∈ xs, x.length = T.h.length) : ∀ x ∈ xs, ∀ incr ∈ incrs T.h.length,
+    addIncr (floorIdx T.basePt T.h x) incr ∈ needed T xs :=
+  fun x hx1 incr hi => (mem_needed T xs _).mpr ⟨_, floor_mem_safeBases T hg xs hx x hx1, incr, hi, rfl⟩
+
+
+/-! ### the storage invariant of the adaptive table -/
+
+theorem rowOf_keys (bp h : List Rat) (K : List Coord) (f : List Rat → Rat) :
+    (rowOf bp h K f).map (·.1) = K := by
+  unfold rowOf
+  rw [List.map_map]
+  have : ((fun p : Coord × Rat => p.1) ∘ fun i => (i, f (coordOf bp h i))) = id := rfl
+  rw [this, List.map_id]
+
+theorem Inv.keys_ne {fs : List (List Rat → Rat)} {T : ATable} {K : List Coord} (hI : Inv fs T K) (hfs : fs ≠ []) :
+    T.keys = K := by
+  unfold ATable.keys
+  rw [hI.rows]
+  cases fs with
+  | nil => exact absurd rfl hfs
+  | cons f fs => simp only [List.map_cons, List.headD_cons]; exact rowOf_keys _ _ _ _
+
+theorem Inv.keys_sub {fs : List (List Rat → Rat)} {T : ATable} {K : List Coord} (hI : Inv fs T K) :
+    ∀ i ∈ T.keys, i ∈ K := by
+  cases fs with
+  | nil =>
+    intro i hi
+    unfold ATable.keys at hi
+    rw [hI.rows] at hi
+    simp at hi
+  | cons f fs => intro i hi; rw [hI.keys_ne (by simp)] at hi; exact hi
+
+theorem zipWith_map_self {α β γ : Type} (g : β → α → γ) (r : α → β) : ∀ (l : List α),
+    List.zipWith g (l.map r) l = l.map (fun a => g (r a) a)
+  | [] => rfl
+  | a :: l => by simp [zipWith_map_self g r l]
+
+theorem empty_inv (h bp : List Rat) (fs : List (List Rat → Rat)) :
+    Inv fs (ATable.empty h bp fs.length) [] := by
+  refine ⟨?_, rfl, List.nodup_nil, by simp⟩
+  simp only [ATable.empty]
+  induction fs with
+  | nil => rfl
+  | cons f fs ih => simp only [List.length_cons, List.replicate_succ, List.map_cons, ih]; rfl
+
+theorem quadPoints_fresh {fs : List (List Rat → Rat)} {T : ATable} {K : List Coord} (hI : Inv fs T K)
+    (xs : List (List Rat)) : ∀ i ∈ quadPoints T xs, i ∉ K := by
+  intro i hi hK
+  unfold quadPoints at hi
+  rw [List.mem_filter] at hi
+  have : coordOf T.basePt T.h i ∈ T.pt := by
+    rw [hI.pt]
+    exact List.mem_map.mpr ⟨i, hK, rfl⟩
+  simp [this] at hi
+
+/-- `_fill_values` keeps the invariant, appends exactly the new quadrature points, and afterwards every
+    vertex of the hypercube of every queried point is stored. -/
+theorem fill_inv {fs : List (List Rat → Rat)} {T : ATable} {K : List Coord} (hg : Geo T) (hI : Inv fs T K)
+    (xs : List (List Rat)) (hx : ∀ x ∈ xs, x.length = T.h.length) :
+    (fill T fs xs).h = T.h ∧ (fill T fs xs).basePt = T.basePt ∧
+    Inv fs (fill T fs xs) (K ++ quadPoints T xs) ∧
+    ∀ x ∈ xs, ∀ incr ∈ incrs T.h.length,
+      addIncr (floorIdx T.basePt T.h x) incr ∈ K ++ quadPoints T xs := by
+  have hfresh := quadPoints_fresh hI xs
+  have htodo : (quadPoints T xs).filter (fun i => !(T.keys.contains i)) = quadPoints T xs := by
+    rw [List.filter_eq_self]
+    intro i hi
+    have : ¬ i ∈ T.keys := fun h => hfresh i hi (hI.keys_sub i h)
+    simp [this]
+  have hsub : ∀ i ∈ quadPoints T xs, i ∈ needed T xs := fun i hi => (List.mem_filter.mp hi).1
+  have hnd : (K ++ quadPoints T xs).Nodup := by
+    rw [List.nodup_append]
+    refine ⟨hI.nodup, (C46.nodup_uniqueCoords _).sublist List.filter_sublist, ?_⟩
+    intro a ha b hb e
+    subst e
+    exact hfresh a hb ha
+  have hlen : ∀ i ∈ K ++ quadPoints T xs, i.length = T.h.length := by
+    intro i hi
+    rcases List.mem_append.mp hi with h | h
+    · exact hI.len i h
+    · exact needed_length T hg xs hx i (hsub i h)
+  have hmem : ∀ x ∈ xs, ∀ incr ∈ incrs T.h.length,
+      addIncr (floorIdx T.basePt T.h x) incr ∈ K ++ quadPoints T xs := by
+    intro x hx1 incr hinc
+    have hn := cube_mem_needed T hg xs hx x hx1 incr hinc
+    by_cases hK : addIncr (floorIdx T.basePt T.h x) incr ∈ K
+    · exact List.mem_append_left _ hK
+    · refine List.mem_append_right _ ?_
+      unfold quadPoints
+      rw [List.mem_filter]
+      refine ⟨hn, ?_⟩
+      have : ¬ coordOf T.basePt T.h (addIncr (floorIdx T.basePt T.h x) incr) ∈ T.pt := by
+        rw [hI.pt]
+        intro hm
+        obtain ⟨k, hk, he⟩ := List.mem_map.mp hm
+        have := coordOf_inj T.basePt T.h _ _ hg.hb (hI.len k hk) (needed_length T hg xs hx _ hn) hg.hne he
+        exact hK (this ▸ hk)
+      simp [this]
+  unfold fill
+  simp only [htodo]
+  by_cases hemp : (quadPoints T xs).isEmpty = true
+  · rw [if_pos hemp]
+    have : quadPoints T xs = [] := List.isEmpty_iff.mp hemp
+    rw [this, List.append_nil] at hnd hlen hmem ⊢
+    exact ⟨rfl, rfl, hI, hmem⟩
+  · rw [if_neg hemp]
+    refine ⟨rfl, rfl, ⟨?_, ?_, hnd, hlen⟩, hmem⟩
+    · simp only
+      rw [hI.rows, zipWith_map_self]
+      apply List.map_congr_left
+      intro f _
+      have hu : C46.uniqueCoords (quadPoints T xs) = quadPoints T xs := by
+        unfold quadPoints needed
+        exact uniqueCoords_filter _ _
+      rw [add_fresh _ (quadPoints T xs) (fun i => f (coordOf T.basePt T.h i)) hu
+        (by intro k hk; rw [rowOf_keys]; exact hfresh k hk)]
+      simp [rowOf]
+    · simp only
+      rw [hI.pt, List.map_append]
+
+
+/-! ### queries on a filled adaptive table -/
+
+/-- right weights of the adaptive table at a point -/
+def aw (T : ATable) (x : List Rat) : List Rat :=
+  aRightWeights x (coordOf T.basePt T.h (floorIdx T.basePt T.h x)) T.h
+
+theorem aw_facts : ∀ (bp h x : List Rat), bp.length = h.length → x.length = h.length → (∀ hk ∈ h, hk ≠ 0) →
+    (aRightWeights x (coordOf bp h (floorIdx bp h x)) h).length = h.length ∧
+    weightsOk (aRightWeights x (coordOf bp h (floorIdx bp h x)) h) = true ∧
+    ∀ w ∈ aRightWeights x (coordOf bp h (floorIdx bp h x)) h, 0 ≤ w ∧ w < 1
+  | [], [], [], _, _, _ => by simp [aRightWeights, weightsOk]
+  | _ :: _, [], _, h, _, _ => by simp at h
+  | [], _ :: _, _, h, _, _ => by simp at h
+  | _, _ :: _, [], _, h, _ => by simp at h
+  | [], [], _ :: _, _, h, _ => by simp at h
+  | b :: bp, h :: hs, x :: xs, h1, h2, hne => by
+    obtain ⟨i1, i2, i3⟩ := aw_facts bp hs xs (by simpa using h1) (by simpa using h2)
+      (fun hk hm => hne hk (List.mem_cons_of_mem _ hm))
+    have hh : h ≠ 0 := hne h List.mem_cons_self
+    have hfl := Rat.floor_le ((x - b) / h)
+    have hfl2 := Rat.lt_floor_add_one ((x - b) / h)
+    push_cast at hfl2
+    have hw : (x - (b + h * (((x - b) / h).floor : Rat))) / h = (x - b) / h - (((x - b) / h).floor : Rat) := by
+      field_simp
+      ring
+    have ht := tol_pos
+    simp only [floorIdx, coordOf, aRightWeights, List.length_cons, i1, weightsOk, List.all_cons,
+      Bool.and_eq_true, decide_eq_true_eq, List.mem_cons, hw]
+    refine ⟨trivial, ⟨⟨by linarith, by linarith⟩, i2⟩, ?_⟩
+    rintro w (rfl | hw')
+    · exact ⟨by linarith, by linarith⟩
+    · exact i3 w hw'
+
+theorem getD_idxOf_map {β : Type} (g : Coord → β) (d : β) : ∀ (K : List Coord) (b : Coord), b ∈ K →
+    (K.map g).getD (K.idxOf b) d = g b
+  | [], b, h => by simp at h
+  | k :: K, b, h => by
+    by_cases e : k = b
+    · subst e; simp
+    · have hb : b ∈ K := by
+        rcases List.mem_cons.mp h with e' | e'
+        · exact absurd e'.symm e
+        · exact e'
+      have := getD_idxOf_map g d K b hb
+      simpa [e] using this
+
+theorem aInterpRow_eq (bp h : List Rat) (K : List Coord) (f : List Rat → Rat) (b : Coord) (rw : List Rat)
+    (hl : rw.length = b.length) (hmem : ∀ incr ∈ incrs b.length, addIncr b incr ∈ K) :
+    aInterpRow b.length (rowOf bp h K f) (b, rw) = .ok (wsum (rw.zip b) (fun v => f (coordOf bp h v))) := by
+  unfold aInterpRow rowOf
+  simp only [List.any_map, List.map_map]
+  rw [if_neg]
+  · congr 1
+    rw [← enum_wsum b rw _ hl]
+    apply sumQ_map_congr
+    intro incr hi
+    simp only [Function.comp, get1_map, if_pos (hmem incr hi), Option.getD_some]
+  · rw [List.any_eq_true]
+    rintro ⟨incr, hi, hbad⟩
+    simp [Function.comp, get1_map, hmem incr hi] at hbad
+
+theorem aGradRow_eq (bp h : List Rat) (K : List Coord) (f : List Rat → Rat) (b : Coord) (rw : List Rat)
+    (k : Nat) (hk : Rat) (hl : rw.length = b.length) (hkl : k < b.length)
+    (hmem : ∀ incr ∈ incrs b.length, addIncr b incr ∈ K) :
+    aGradRow b.length k hk (rowOf bp h K f) (b, rw) =
+      .ok (gsum k (rw.zip b) (fun v => f (coordOf bp h v)) / hk) := by
+  unfold aGradRow rowOf
+  simp only [List.any_map, List.map_map]
+  rw [if_neg]
+  · congr 2
+    rw [← enum_gsum k b rw _ hl hkl]
+    apply sumQ_map_congr
+    intro incr hi
+    simp only [Function.comp, get1_map, if_pos (hmem incr hi), Option.getD_some]
+  · rw [List.any_eq_true]
+    rintro ⟨incr, hi, hbad⟩
+    simp [Function.comp, get1_map, hmem incr hi] at hbad
+
+/-- hypotheses under which a stored table answers: invariant, at least one component, all the
+    hypercube vertices of the queried points stored -/
+structure Ready (fs : List (List Rat → Rat)) (T : ATable) (K : List Coord) (xs : List (List Rat)) : Prop where
+  geo : Geo T
+  inv : Inv fs T K
+  ne : fs ≠ []
+  len : ∀ x ∈ xs, x.length = T.h.length
+  mem : ∀ x ∈ xs, ∀ incr ∈ incrs T.h.length, addIncr (floorIdx T.basePt T.h x) incr ∈ K
+
+theorem Ready.prep {fs T K xs} (hr : Ready fs T K xs) :
+    xs.mapM (aPrep T) = .ok (xs.map (fun x => (floorIdx T.basePt T.h x, aw T x))) := by
+  apply mapM_ok
+  intro x hx1
+  have hbl := floorIdx_length _ _ _ hr.geo.hb (hr.len x hx1)
+  have hb : floorIdx T.basePt T.h x ∈ K := by
+    have := hr.mem x hx1 _ (zeros_mem_incrs T.h.length)
+    rwa [← hbl, addIncr_zeros] at this
+  unfold aPrep
+  simp only [hr.inv.keys_ne hr.ne, List.contains_iff_mem, hb, if_true]
+  rw [hr.inv.pt, getD_idxOf_map _ _ K _ hb]
+  rfl
+
+theorem Ready.weights {fs T K xs} (hr : Ready fs T K xs) :
+    (xs.map (fun x => (floorIdx T.basePt T.h x, aw T x))).all (fun p => weightsOk p.2) = true := by
+  rw [List.all_map, List.all_eq_true]
+  intro x hx1
+  exact (aw_facts _ _ _ hr.geo.hb (hr.len x hx1) hr.geo.hne).2.1
+
+theorem interpStored_eq {fs T K xs} (hr : Ready fs T K xs) :
+    T.interpolateStored xs = .ok (fs.map (fun f => xs.map (fun x =>
+      wsum ((aw T x).zip (floorIdx T.basePt T.h x)) (fun v => f (coordOf T.basePt T.h v))))) := by
+  unfold ATable.interpolateStored
+  rw [hr.prep]
+  simp only [hr.weights, Bool.not_true, Bool.false_eq_true, if_false]
+  rw [hr.inv.rows]
+  apply mapM_map_ok
+  intro f _
+  apply mapM_map_ok
+  intro x hx1
+  have hbl := floorIdx_length _ _ _ hr.geo.hb (hr.len x hx1)
+  have hwl := (aw_facts _ _ _ hr.geo.hb (hr.len x hx1) hr.geo.hne).1
+  rw [← hbl]
+  exact aInterpRow_eq _ _ K f _ _ (by unfold aw; rw [hwl, hbl]) (by rw [hbl]; exact hr.mem x hx1)
+
+theorem gradStored_eq {fs T K xs} (hr : Ready fs T K xs) (k : Nat) (hk : Rat) (hkh : T.h[k]? = some hk) :
+    T.gradientStored xs k = .ok (fs.map (fun f => xs.map (fun x =>
+      gsum k ((aw T x).zip (floorIdx T.basePt T.h x)) (fun v => f (coordOf T.basePt T.h v)) / hk))) := by
+  unfold ATable.gradientStored
+  rw [hr.prep]
+  simp only [hr.weights, Bool.not_true, Bool.false_eq_true, if_false, hkh]
+  rw [hr.inv.rows]
+  have hkl : k < T.h.length := by
+    rcases Nat.lt_or_ge k T.h.length with h | h
+    · exact h
+    · rw [List.getElem?_eq_none h] at hkh; cases hkh
+  apply mapM_map_ok
+  intro f _
+  apply mapM_map_ok
+  intro x hx1
+  have hbl := floorIdx_length _ _ _ hr.geo.hb (hr.len x hx1)
+  have hwl := (aw_facts _ _ _ hr.geo.hb (hr.len x hx1) hr.geo.hne).1
+  rw [← hbl]
+  exact aGradRow_eq _ _ K f _ _ k hk (by unfold aw; rw [hwl, hbl]) (by rw [hbl]; exact hkl)
+    (by rw [hbl]; exact hr.mem x hx1)
+
+/-- after `_fill_values` the table is ready for the points it was filled for -/
+theorem fill_ready {fs : List (List Rat → Rat)} {T : ATable} {K : List Coord} (hg : Geo T) (hI : Inv fs T K)
+    (hfs : fs ≠ []) (xs : List (List Rat)) (hx : ∀ x ∈ xs, x.length = T.h.length) :
+    Ready fs (fill T fs xs) (K ++ quadPoints T xs) xs := by
+  obtain ⟨e1, e2, hI', hmem⟩ := fill_inv hg hI xs hx
+  exact ⟨⟨by rw [e1, e2]; exact hg.hb, by rw [e1]; exact hg.hne⟩, hI', hfs, by rw [e1]; exact hx,
+    by rw [e1, e2]; exact hmem⟩
+
+
+/-! ### the adaptive table laid over the grid of a standard table -/
+
+/-- unclamped base vertex `floor((x - low) / h)` per axis -/
+def floors (axes : List Axis) (x : List Rat) : List Int := floorIdx (lows axes) (hs axes) x
+
+theorem coordOf_eq_gridPt : ∀ (axes : List Axis) (v : List Int),
+    coordOf (lows axes) (hs axes) v = gridPt axes v
+  | [], _ => by simp [lows, hs, coordOf, gridPt]
+  | _ :: _, [] => by simp [lows, hs, coordOf, gridPt]
+  | a :: as, i :: is => by
+    have := coordOf_eq_gridPt as is
+    simp only [lows, hs, List.map_cons, coordOf, gridPt, Axis.pt] at this ⊢
+    rw [this, mul_comm]
+
+theorem aRightWeights_eq : ∀ (axes : List Axis) (x : List Rat) (b : List Int),
+    aRightWeights x (gridPt axes b) (hs axes) = rightWeights axes x b
+  | [], x, b => by cases x <;> simp [hs, gridPt, aRightWeights, rightWeights]
+  | _ :: _, [], _ => by simp [aRightWeights, rightWeights]
+  | _ :: _, _ :: _, [] => by simp [gridPt, aRightWeights, rightWeights]
+  | a :: as, x :: xs, b :: bs => by
+    have := aRightWeights_eq as xs bs
+    simp only [hs, List.map_cons, gridPt, aRightWeights, rightWeights, Axis.rightWeight] at this ⊢
+    rw [this]
+
+theorem axis_switch (a : Axis) (x : Rat) (hn : 2 ≤ a.npt) (hlh : a.low < a.high)
+    (hx : a.low ≤ x) (hx2 : x ≤ a.high) :
+    a.base x = ((x - a.low) / a.h).floor ∨
+    (a.rightWeight x (a.base x) = 1 ∧ a.rightWeight x ((x - a.low) / a.h).floor = 0 ∧
+      ((x - a.low) / a.h).floor = a.base x + 1 ∧ x = a.high) := by
+  have hh := h_pos a hn hlh
+  have hmax : max ((a.npt : Int) - 2) 0 = (a.npt : Int) - 2 := by omega
+  have hfl := Rat.floor_le ((x - a.low) / a.h)
+  have hw : ∀ b : Int, a.rightWeight x b = (x - a.low) / a.h - (b : Rat) := by
+    intro b
+    unfold Axis.rightWeight Axis.pt
+    field_simp
+    ring
+  have hqn : (x - a.low) / a.h ≤ (a.npt : Rat) - 1 := by
+    rw [div_le_iff₀ hh]
+    have : ((a.npt : Rat) - 1) * a.h = a.high - a.low := by
+      unfold Axis.h
+      have h2 : (2 : Rat) ≤ (a.npt : Rat) := by exact_mod_cast hn
+      have hne : (a.npt : Rat) - 1 ≠ 0 := by intro h; linarith
+      field_simp
+    linarith
+  rcases le_or_gt ((x - a.low) / a.h).floor ((a.npt : Int) - 2) with h | h
+  · left; unfold Axis.base; rw [hmax]; exact min_eq_left h
+  · right
+    have hb : a.base x = (a.npt : Int) - 2 := by unfold Axis.base; rw [hmax]; exact min_eq_right h.le
+    have hfle : ((x - a.low) / a.h).floor ≤ (a.npt : Int) - 1 := by
+      have : ((((x - a.low) / a.h).floor : Int) : Rat) ≤ (((a.npt : Int) - 1 : Int) : Rat) := by
+        push_cast; linarith
+      exact_mod_cast this
+    have hfeq : ((x - a.low) / a.h).floor = (a.npt : Int) - 1 := by omega
+    have hq : (x - a.low) / a.h = (a.npt : Rat) - 1 := by
+      have : ((((x - a.low) / a.h).floor : Int) : Rat) = (a.npt : Rat) - 1 := by rw [hfeq]; push_cast; ring
+      linarith
+    refine ⟨?_, ?_, by omega, ?_⟩
+    · rw [hw, hb, hq]; push_cast; ring
+    · rw [hw, hfeq, hq]; push_cast; ring
+    · have hnh : ((a.npt : Rat) - 1) * a.h = a.high - a.low := by
+        unfold Axis.h
+        have h2 : (2 : Rat) ≤ (a.npt : Rat) := by exact_mod_cast hn
+        have hne : (a.npt : Rat) - 1 ≠ 0 := by intro h; linarith
+        field_simp
+      have : x - a.low = ((a.npt : Rat) - 1) * a.h := by
+        rw [← hq]; field_simp
+      linarith
+
+/-- Interpolating in the cell chosen by the standard table (base clamped to `npt - 2`) and in the cell chosen
+    by the adaptive table (unclamped floor) gives the same value, for ANY grid function `g`. -/
+theorem wsum_switch : ∀ (axes : List Axis) (x : List Rat), WF axes → axes.length = x.length →
+    inBox axes x = true → ∀ (g : List Int → Rat),
+    wsum ((rightWeights axes x (bases axes x)).zip (bases axes x)) g =
+      wsum ((rightWeights axes x (floors axes x)).zip (floors axes x)) g
+  | [], [], _, _, _, g => by simp [rightWeights, bases, floors, lows, hs, floorIdx]
+  | [], _ :: _, _, h, _, _ => by simp at h
+  | _ :: _, [], _, h, _, _ => by simp at h
+  | a :: as, x :: xs, hwf, hl, hbox, g => by
+    simp only [inBox, Bool.and_eq_true] at hbox
+    obtain ⟨hr, hbox'⟩ := hbox
+    rw [inRange_iff] at hr
+    obtain ⟨hn, hlh⟩ := hwf a List.mem_cons_self
+    have ih := wsum_switch as xs (fun b hb => hwf b (List.mem_cons_of_mem _ hb)) (by simpa using hl) hbox'
+    simp only [floors, lows, hs] at ih ⊢
+    simp only [bases, rightWeights, floorIdx, List.map_cons, List.zip_cons_cons, wsum]
+    rw [ih, ih]
+    rcases axis_switch a x hn hlh hr.1 hr.2 with h | ⟨h1, h2, h3, _⟩
+    · rw [h]
+    · rw [h1, h2, h3]; ring
+
+theorem bases_eq_floors : ∀ (axes : List Axis) (x : List Rat), WF axes → axes.length = x.length →
+    inBox axes x = true → offUpper axes x = true → bases axes x = floors axes x
+  | [], [], _, _, _, _ => by simp [bases, floors, lows, hs, floorIdx]
+  | [], _ :: _, _, h, _, _ => by simp at h
+  | _ :: _, [], _, h, _, _ => by simp at h
+  | a :: as, x :: xs, hwf, hl, hbox, hoff => by
+    simp only [inBox, Bool.and_eq_true] at hbox
+    simp only [offUpper, Bool.and_eq_true, decide_eq_true_eq] at hoff
+    obtain ⟨hr, hbox'⟩ := hbox
+    rw [inRange_iff] at hr
+    obtain ⟨hn, hlh⟩ := hwf a List.mem_cons_self
+    have ih := bases_eq_floors as xs (fun b hb => hwf b (List.mem_cons_of_mem _ hb)) (by simpa using hl) hbox' hoff.2
+    simp only [floors, lows, hs] at ih ⊢
+    simp only [bases, floorIdx, List.map_cons, ih, List.cons.injEq, and_true]
+    rcases axis_switch a x hn hlh hr.1 hr.2 with h | ⟨_, _, _, h4⟩
+    · exact h
+    · exact absurd h4 (ne_of_lt hoff.1)
+
+/-! ### histories: both tables against the same recursive sums -/
+
+/-- what both tables compute, written with the recursive sums over the cell `floors axes x` -/
+def idealAnswer (axes : List Axis) (fs : List (List Rat → Rat)) : Query → Except Err (List (List Rat))
+  | .interp xs => .ok (fs.map (fun f => xs.map (fun x =>
+      wsum ((rightWeights axes x (floors axes x)).zip (floors axes x)) (fun v => f (gridPt axes v)))))
+  | .grad xs k =>
+    match axes[k]? with
+    | none => .error .indexError
+    | some ax => .ok (fs.map (fun f => xs.map (fun x =>
+        gsum k ((rightWeights axes x (floors axes x)).zip (floors axes x)) (fun v => f (gridPt axes v)) / ax.h)))
+
+/-- the adaptive table lies over the grid of the standard table: `dx = h`, `base_point = low` -/
+structure Over (axes : List Axis) (T : ATable) : Prop where
+  h : T.h = hs axes
+  bp : T.basePt = lows axes
+
+theorem Over.geo {axes : List Axis} {T : ATable} (ho : Over axes T) (hwf : WF axes) : Geo T := by
+  refine ⟨by rw [ho.h, ho.bp]; simp [hs, lows], ?_⟩
+  rw [ho.h]
+  intro hk hm
+  obtain ⟨a, ha, rfl⟩ := List.mem_map.mp hm
+  exact hwf.h_ne a ha
+
+theorem gradStored_none {fs T K xs} (hr : Ready fs T K xs) (k : Nat) (hkh : T.h[k]? = none) :
+    T.gradientStored xs k = .error .indexError := by
+  unfold ATable.gradientStored
+  rw [hr.prep]
+  simp only [hr.weights, Bool.not_true, Bool.false_eq_true, if_false, hkh]
+
+theorem adaptive_step {axes : List Axis} {fs : List (List Rat → Rat)} {T : ATable} {K : List Coord}
+    (hwf : WF axes) (ho : Over axes T) (hI : Inv fs T K) (hfs : fs ≠ []) (q : Query)
+    (hq : ∀ x ∈ q.points, x.length = axes.length) :
+    ∃ K', Over axes (T.answer fs q).1 ∧ Inv fs (T.answer fs q).1 K' ∧
+      (T.answer fs q).2 = idealAnswer axes fs q := by
+  have hg := ho.geo hwf
+  have hlen : ∀ x ∈ q.points, x.length = T.h.length := by
+    intro x hx; rw [ho.h, hq x hx]; simp [hs]
+  have hr := fill_ready hg hI hfs q.points hlen
+  obtain ⟨e1, e2, _, _⟩ := fill_inv hg hI q.points hlen
+  have ho' : Over axes (fill T fs q.points) := ⟨by rw [e1, ho.h], by rw [e2, ho.bp]⟩
+  refine ⟨K ++ quadPoints T q.points, ?_, ?_, ?_⟩
+  · cases q <;> exact ho'
+  · cases q <;> exact hr.inv
+  · cases q with
+    | interp xs =>
+      simp only [Query.points] at hr ho'
+      show (fill T fs xs).interpolateStored xs = _
+      rw [interpStored_eq hr]
+      simp only [aw, ho'.h, ho'.bp, coordOf_eq_gridPt, aRightWeights_eq, idealAnswer, floors]
+    | grad xs k =>
+      simp only [Query.points] at hr ho'
+      show (fill T fs xs).gradientStored xs k = _
+      cases hk : axes[k]? with
+      | none =>
+        rw [gradStored_none hr k (by rw [ho'.h]; simp [hs, hk])]
+        simp [idealAnswer, hk]
+      | some ax =>
+        rw [gradStored_eq hr k ax.h (by rw [ho'.h]; simp [hs, hk])]
+        simp only [aw, ho'.h, ho'.bp, coordOf_eq_gridPt, aRightWeights_eq, idealAnswer, floors, hk]
+
+theorem adaptive_run_ideal {axes : List Axis} {fs : List (List Rat → Rat)} (hwf : WF axes) (hfs : fs ≠ []) :
+    ∀ (qs : List Query) (T : ATable) (K : List Coord), Over axes T → Inv fs T K →
+    (∀ q ∈ qs, ∀ x ∈ q.points, x.length = axes.length) →
+    T.run fs qs = qs.map (idealAnswer axes fs)
+  | [], _, _, _, _, _ => rfl
+  | q :: qs, T, K, ho, hI, hq => by
+    obtain ⟨K', ho', hI', he⟩ := adaptive_step hwf ho hI hfs q (hq q List.mem_cons_self)
+    simp only [ATable.run, List.map_cons, he]
+    rw [adaptive_run_ideal hwf hfs qs _ K' ho' hI' (fun q' hq' => hq q' (List.mem_cons_of_mem _ hq'))]
+
+/-! the standard table against the same sums -/
+
+theorem std_interp_general (axes : List Axis) (f : List Rat → Rat) (x : List Rat) (hwf : WF axes)
+    (hl : x.length = axes.length) (hb : inBox axes x = true) :
+    interpRow ((coords axes).map f) (strides 1 (axes.map (·.npt))) (bases axes x)
+      (rightWeights axes x (bases axes x)) =
+      .ok (wsum ((rightWeights axes x (floors axes x)).zip (floors axes x)) (fun v => f (gridPt axes v))) := by
+  obtain ⟨i1, i2, _, _, i5⟩ := point_facts axes x hwf hl.symm hb
+  rw [interpRow_eq axes f _ _ (by rw [i1, i2]) i5, wsum_switch axes x hwf hl.symm hb]
+
+theorem std_answer_general (axes : List Axis) (fs : List (List Rat → Rat)) (q : Query) (hwf : WF axes)
+    (hq : q.inBox axes) (hoff : q.gradOffUpper axes) :
+    (mkTable axes fs).answer q = idealAnswer axes fs q := by
+  obtain ⟨g1, g2⟩ := guards_pass axes q.points hwf hq
+  cases q with
+  | interp xs =>
+    simp only [Query.points] at g1 g2
+    unfold Table.answer Table.interpolate mkTable rowsPoints idealAnswer
+    simp only [g1, g2, Bool.not_true, Bool.false_eq_true, if_false]
+    apply mapM_map_ok
+    intro f _
+    apply mapM_map_ok
+    intro x hx'
+    exact std_interp_general axes f x hwf (hq x hx').1 (hq x hx').2
+  | grad xs k =>
+    simp only [Query.points] at g1 g2
+    unfold Table.answer Table.gradient mkTable rowsPoints idealAnswer
+    simp only [g1, g2, Bool.not_true, Bool.false_eq_true, if_false]
+    cases hk : axes[k]? with
+    | none => rfl
+    | some ax =>
+      simp only
+      have hkl : k < axes.length := by
+        rcases Nat.lt_or_ge k axes.length with h | h
+        · exact h
+        · rw [List.getElem?_eq_none h] at hk; cases hk
+      apply mapM_map_ok
+      intro f _
+      apply mapM_map_ok
+      intro x hx'
+      obtain ⟨i1, i2, _, _, i5⟩ := point_facts axes x hwf (hq x hx').1.symm (hq x hx').2
+      rw [gradRow_eq axes f _ _ k ax.h (by rw [i1, i2]) (by rw [i1, (hq x hx').1]; exact hkl) i5,
+        bases_eq_floors axes x hwf (hq x hx').1.symm (hq x hx').2 (hoff x hx')]
+
+/-! multilinear functions: the recursive sums are exact in every cell -/
+
+theorem floors_length (axes : List Axis) (x : List Rat) (hl : x.length = axes.length) :
+    (floors axes x).length = x.length := by
+  unfold floors
+  rw [floorIdx_length _ _ _ (by simp [lows, hs]) (by simp [hs, hl]), hl]; simp [hs]
+
+theorem ideal_multilinear (axes : List Axis) (ts : List ML) (q : Query) (hwf : WF axes)
+    (hq : ∀ x ∈ q.points, x.length = axes.length) (hk : q.axisOk axes.length) :
+    idealAnswer axes (ts.map ML.eval) q = exactAnswer ts q := by
+  cases q with
+  | interp xs =>
+    simp only [idealAnswer, exactAnswer, List.map_map]
+    congr 1
+    apply List.map_congr_left
+    intro t _
+    apply List.map_congr_left
+    intro x hx
+    exact wsum_exact t axes x _ (hq x hx).symm (floors_length axes x (hq x hx)).symm hwf.h_ne
+  | grad xs k =>
+    have hkl : k < axes.length := hk
+    simp only [idealAnswer, exactAnswer, List.map_map, List.getElem?_eq_getElem hkl]
+    congr 1
+    apply List.map_congr_left
+    intro t _
+    apply List.map_congr_left
+    intro x hx
+    rw [gsum_exact t k axes x _ (hq x hx).symm (floors_length axes x (hq x hx)).symm hwf.h_ne,
+      List.getElem?_eq_getElem hkl]
+    have : axes[k].h ≠ 0 := hwf.h_ne _ (List.getElem_mem hkl)
+    field_simp
+
+theorem std_answer_multilinear (axes : List Axis) (ts : List ML) (q : Query) (hwf : WF axes)
+    (hq : q.inBox axes) (hk : q.axisOk axes.length) :
+    (mkTable axes (ts.map ML.eval)).answer q = exactAnswer ts q := by
+  obtain ⟨g1, g2⟩ := guards_pass axes q.points hwf hq
+  cases q with
+  | interp xs =>
+    simp only [Query.points] at g1 g2
+    unfold Table.answer Table.interpolate mkTable rowsPoints exactAnswer
+    simp only [g1, g2, Bool.not_true, Bool.false_eq_true, if_false, List.map_map]
+    apply mapM_map_ok
+    intro t _
+    apply mapM_map_ok
+    intro x hx'
+    exact std_interp_point axes t x hwf (hq x hx').1 (hq x hx').2
+  | grad xs k =>
+    have hkl : k < axes.length := hk
+    simp only [Query.points] at g1 g2
+    unfold Table.answer Table.gradient mkTable rowsPoints exactAnswer
+    simp only [g1, g2, Bool.not_true, Bool.false_eq_true, if_false, List.map_map]
+    rw [List.getElem?_eq_getElem hkl]
+    simp only
+    apply mapM_map_ok
+    intro t _
+    apply mapM_map_ok
+    intro x hx'
+    exact std_grad_point axes t x k _ hwf (List.getElem?_eq_getElem hkl) (hq x hx').1 (hq x hx').2
+
+/-! ### multilinear functions in coefficient form -/
+
+theorem eval_ofCoefs : ∀ (x : List Rat) (cs : List Rat), (ML.ofCoefs x.length cs).eval x = evalCoefs cs x
+  | [], cs => by simp [ML.ofCoefs, ML.eval, evalCoefs]
+  | x :: xs, cs => by
+    simp only [List.length_cons, ML.ofCoefs, ML.eval, evalCoefs]
+    rw [eval_ofCoefs xs, eval_ofCoefs xs]
+
+theorem tensorEval_cons (c : List Bool → Rat) (x : Rat) (xs : List Rat) :
+    tensorEval c (x :: xs) =
+      tensorEval (fun m => c (false :: m)) xs + x * tensorEval (fun m => c (true :: m)) xs := by
+  unfold tensorEval
+  simp only [List.length_cons, masks, List.map_append, List.map_map, sumQ_append]
+  congr 1
+  rw [← sumQ_map_mul_left]
+  apply sumQ_map_congr
+  intro m _
+  simp only [Function.comp, monomial]
+  ring
+
+theorem eval_ofTensor : ∀ (x : List Rat) (c : List Bool → Rat), (ML.ofTensor x.length c).eval x = tensorEval c x
+  | [], c => by simp [ML.ofTensor, ML.eval, tensorEval, masks, monomial, sumQ]
+  | x :: xs, c => by
+    rw [tensorEval_cons]
+    simp only [List.length_cons, ML.ofTensor, ML.eval]
+    rw [eval_ofTensor xs, eval_ofTensor xs]
+
+theorem eval_affine (c0 : Rat) : ∀ (cs x : List Rat), cs.length = x.length →
+    (ML.affine c0 cs).eval x = c0 + dotQ cs x
+  | [], [], _ => by simp [ML.affine, ML.eval, dotQ]
+  | [], _ :: _, h => by simp at h
+  | _ :: _, [], h => by simp at h
+  | c :: cs, x :: xs, h => by
+    simp only [ML.affine, ML.eval, dotQ]
+    rw [eval_affine c0 cs xs (by simpa using h)]
+    ring
+
+theorem deriv_affine (c0 : Rat) : ∀ (k : Nat) (cs x : List Rat), cs.length = x.length →
+    (ML.affine c0 cs).deriv k x = cs.getD k 0
+  | k, [], [], _ => by simp [ML.affine, ML.deriv]
+  | _, [], _ :: _, h => by simp at h
+  | _, _ :: _, [], h => by simp at h
+  | 0, c :: cs, x :: xs, _ => by simp [ML.affine, ML.deriv, ML.eval]
+  | k + 1, c :: cs, x :: xs, h => by
+    simp only [ML.affine, ML.deriv, List.getD_cons_succ]
+    rw [deriv_affine c0 k cs xs (by simpa using h)]
+    ring
+
+/-! ### partition of unity -/
+
+theorem weights_sum_one (rw : List Rat) : sumQ ((incrs rw.length).map (vertexWeight rw)) = 1 := by
+  have h := enum_wsum (List.replicate rw.length (0 : Int)) rw (fun _ => 1) (by simp)
+  rw [wsum_const, List.length_replicate] at h
+  rw [← h]
+  apply sumQ_map_congr
+  intro incr _
+  ring
+
+theorem gradWeights_sum_zero (rw : List Rat) (k : Nat) (hk : k < rw.length) :
+    sumQ ((incrs rw.length).map (gradWeight k rw)) = 0 := by
+  have h := enum_gsum k (List.replicate rw.length (0 : Int)) rw (fun _ => 1) (by simp) (by simpa using hk)
+  rw [gsum_const, List.length_replicate] at h
+  rw [← h]
+  apply sumQ_map_congr
+  intro incr _
+  ring
+
+theorem vertexWeight_nonneg : ∀ (d : Nat) (rw : List Rat), (∀ w ∈ rw, 0 ≤ w ∧ w ≤ 1) →
+    ∀ incr ∈ incrs d, 0 ≤ vertexWeight rw incr
+  | 0, rw, _, incr, hi => by
+    simp only [incrs, List.mem_singleton] at hi
+    subst hi
+    cases rw <;> simp [vertexWeight]
+  | d + 1, [], _, incr, _ => by cases incr <;> simp [vertexWeight]
+  | d + 1, w :: rw, hw, incr, hi => by
+    have h0 := hw w List.mem_cons_self
+    have ih := vertexWeight_nonneg d rw (fun w' hw' => hw w' (List.mem_cons_of_mem _ hw'))
+    simp only [incrs, List.mem_append, List.mem_map] at hi
+    rcases hi with ⟨is, his, rfl⟩ | ⟨is, his, rfl⟩
+    · simp only [vertexWeight]; push_cast
+      exact mul_nonneg (by linarith [h0.1, h0.2]) (ih is his)
+    · simp only [vertexWeight]; push_cast
+      exact mul_nonneg (by linarith [h0.1, h0.2]) (ih is his)
 
 end PorepyVerif.C41
